@@ -22,6 +22,9 @@ def case(g, tier, ci):
     sg = SeqGen(g)
     SR = r.choice([1e3, 1e6, 1e9, 2.4e9])
     chans = r.sample([3, 1, 2, "B"], r.randint(1, 3))
+    if ci % 5 == 3:
+        # channel names of which one is the beginning of the other (1 and 10, 'A' and 'AB'): every channel has its own settings
+        chans = list(r.choice([[1, 10], [10, 1], ["A", "AB"], ["AB", "A"], [2, "2b"], [1, 2, 10]]))
     P = r.randint(1, 3)
     N = r.choice([2399, 2400, 2400, 2401, 2600]) if ci % 6 != 4 else r.choice([2399, 2400, 1000])
     amps = {ch: r.choice([0.5, 1, 2, 4.5, 1 + 2.0 ** -12]) for ch in chans}      # (one with digits below a millivolt)
